@@ -859,6 +859,9 @@ class AirTouch5(pyairtouch.api.AirTouch):
         self._zones: dict[int, At5Zone] = {}
 
         self._state = _AirTouchState.CLOSED
+        self._session = 0
+        """Incremented by shutdown(): tells a message handler that was suspended
+        across a shutdown() and a later init() that it belongs to the old session."""
         self._initialised_event = asyncio.Event()
 
         self._subscribers: set[pyairtouch.api.AirTouchSubscriber] = set()
@@ -883,6 +886,7 @@ class AirTouch5(pyairtouch.api.AirTouch):
     @override
     async def shutdown(self) -> None:
         self._state = _AirTouchState.CLOSED
+        self._session += 1
         self._initialised_event.clear()
         await self._heartbeat_manager.stop()
         await self._socket.close()
@@ -982,6 +986,7 @@ class AirTouch5(pyairtouch.api.AirTouch):
     ) -> None:
         # Process messages according to the current state.
         # Unhandled messages are silently ignored.
+        session = self._session
         match message:
             case ExtendedMessage(console_ver_msg.ConsoleVersionMessage()) if (
                 self._state == _AirTouchState.INIT_VERSION
@@ -1040,7 +1045,10 @@ class AirTouch5(pyairtouch.api.AirTouch):
                 self._state == _AirTouchState.INIT_AC_STATUS
             ):
                 await self._process_ac_status_message(ac_statuses)
-                if self._state != _AirTouchState.INIT_AC_STATUS:
+                if (
+                    self._session != session
+                    or self._state != _AirTouchState.INIT_AC_STATUS
+                ):
                     # shutdown() was called while the message was being processed.
                     return
                 # Move to the next state
@@ -1057,7 +1065,10 @@ class AirTouch5(pyairtouch.api.AirTouch):
                 ac_timer_status_msg.AcTimerStatusMessage(ac_timer_statuses)
             ) if (self._state == _AirTouchState.INIT_AC_TIMER_STATUS):
                 await self._process_ac_timer_status_message(ac_timer_statuses)
-                if self._state != _AirTouchState.INIT_AC_TIMER_STATUS:
+                if (
+                    self._session != session
+                    or self._state != _AirTouchState.INIT_AC_TIMER_STATUS
+                ):
                     # shutdown() was called while the message was being processed.
                     return
                 # Move to the next state
@@ -1074,7 +1085,10 @@ class AirTouch5(pyairtouch.api.AirTouch):
                 zone_status_msg.ZoneStatusMessage(zone_statuses)
             ) if self._state == _AirTouchState.INIT_ZONE_STATUS:
                 await self._process_zone_status_message(zone_statuses)
-                if self._state != _AirTouchState.INIT_ZONE_STATUS:
+                if (
+                    self._session != session
+                    or self._state != _AirTouchState.INIT_ZONE_STATUS
+                ):
                     # shutdown() was called while the message was being processed.
                     return
                 # Move to the next state
